@@ -17,7 +17,6 @@ package ocifilter
 import (
 	"context"
 	"io"
-	"path"
 	"strings"
 
 	"cuelabs.dev/go/oci/ociregistry"
@@ -199,5 +198,7 @@ func (r *subRegistry) repo(name string) string {
 		// empty name.
 		return ""
 	}
-	return path.Join(r.prefix, name)
+	// Note: no path cleaning: a name such as "../x" must not reach
+	// outside the prefix.
+	return r.prefix + "/" + name
 }
